@@ -21,7 +21,12 @@ def build(desc):
         nvc = len(C.VERTEX_CLASSES) if desc.get("wide") else 4
         vs = [C.make_vertex(i, None if not vcls else C.VERTEX_CLASSES[vcls[i % len(vcls)] % nvc]) for i in range(nv)]
     nlc = len(C.LINK_CLASSES) if desc.get("wide") else 6
-    ls = [C.LINK_CLASSES[c % nlc](vs[a % nv], vs[b % nv]) for c, a, b in desc["edges"]]
+    luid = desc.get("luid")
+    if luid:
+        # explicit (and possibly REPEATED) uids: distinct objects may legally carry equal uids
+        ls = [C.LINK_CLASSES[c % nlc](vs[a % nv], vs[b % nv], uid=1 + luid[k % len(luid)]) for k, (c, a, b) in enumerate(desc["edges"])]
+    else:
+        ls = [C.LINK_CLASSES[c % nlc](vs[a % nv], vs[b % nv]) for c, a, b in desc["edges"]]
     for l, end, j in desc.get("reassign", ()):
         if ls:
             if end:
@@ -29,6 +34,30 @@ def build(desc):
             else:
                 ls[l % len(ls)].v1 = vs[j % nv]
     return vs, ls
+
+
+def copied(vs, ls, extra=None, how=0):
+    """
+    A copy of an (already queried) world: how 0 -> copy.deepcopy, 1 -> pickle round trip, 2 -> nrpickler/dill.
+    Whatever earlier queries memoised on the objects travels with them.  -> (vs', ls', extra')
+    """
+    import copy
+    import pickle
+
+    bundle = (list(vs), list(ls), extra)
+    if how % 3 == 0:
+        return copy.deepcopy(bundle)
+    import dill
+
+    if how % 3 == 1:
+        try:
+            return pickle.loads(pickle.dumps(bundle))
+        except (AttributeError, pickle.PicklingError, TypeError):
+            # warm neighbor caches may be keyed by this harness's local filter closures, which only dill can pickle
+            return dill.loads(dill.dumps(bundle))
+    from edgegraph.output import nrpickler
+
+    return dill.loads(nrpickler.dumps(bundle))
 
 
 def abstract(vs, ls):
@@ -115,9 +144,10 @@ def eq_graph_descs(max_v=5, max_e=8):
 def graph_descs(max_v=8, max_e=14, classes=6, vcls=True, max_reassign=3, min_v=1, min_e=0, wide=False):
     cls = st.integers(0, classes - 1)
 
-    def mk(nv, edges, reassign, vc):
+    def mk(nv, edges, reassign, vc, luid=None):
         return {
             **({"wide": True} if wide else {}),
+            **({"luid": luid} if luid else {}),
             "nv": nv,
             "vcls": vc,
             "edges": [[c, a % nv, b % nv] for c, a, b in edges],
@@ -129,5 +159,6 @@ def graph_descs(max_v=8, max_e=14, classes=6, vcls=True, max_reassign=3, min_v=1
         st.integers(min_v, max_v),
         st.lists(st.tuples(cls, st.integers(0, max_v - 1), st.integers(0, max_v - 1)), min_size=min_e, max_size=max_e),
         st.lists(st.tuples(st.integers(0, max_e - 1), st.booleans(), st.integers(0, max_v - 1)), max_size=max_reassign),
-        (st.one_of(st.none(), st.lists(st.integers(0, 4 if wide else 3), min_size=1, max_size=4)) if vcls else st.none()),
+        (st.one_of(st.none(), st.lists(st.integers(0, 5 if wide else 3), min_size=1, max_size=4)) if vcls else st.none()),
+        st.one_of(st.none(), st.none(), st.none(), st.lists(st.integers(0, 3), min_size=1, max_size=3)),
     )
